@@ -134,7 +134,6 @@ def _screen_replay(args):
     mem = DictMem()
     for k, b in enumerate(MEMBYTES):
         mem.d[2 * k + 1] = (b << w.bit_length()) | (k & 1)      # packed byte in bits #w..#w+7, noise below
-        mem.d[2 * k] = 0x55
     scr = InMemoryScreen()
     if attached:
         scr.attach_memory(mem)
